@@ -96,6 +96,7 @@ func genC08(t *rapid.T) C08Case {
 
 type c08Features struct {
 	refused, catchVisit, browsePastEnd, junk bool
+	sharedStore                              bool
 	requests                                 int
 }
 
@@ -107,7 +108,17 @@ func runC08(c C08Case) (v *Violation, f c08Features, discard string) {
 		storage, cleanup = newStorage(c.Mode.Backend)
 	}
 	defer cleanup()
-	s := app.NewSession(app.NewShared(c.App), c.Mode, storage)
+	shared := app.NewShared(c.App)
+	if c.Mode.Kind == "persist" && c.Mode.Backend == "mem" && len(c.Inputs)%3 == 0 {
+		// the application is served from a store (resource.DbResource), and that one store
+		// object also holds the sessions - the set-up of the repository's examples/db
+		shared.UseDb = true
+		if d, err := storage.Open(context.Background()); err == nil {
+			shared.DbStore = d
+		}
+		f.sharedStore = true
+	}
+	s := app.NewSession(shared, c.Mode, storage)
 	var waiting []byte // pending bytecode of a session that is waiting for input
 	firstSeen := 0
 	for i, in := range c.Inputs {
@@ -199,6 +210,9 @@ func checkC08(c C08Case) (o Outcome) {
 	o.class("mode:" + c.Mode.Kind + "/" + c.Mode.Backend)
 	if f.browsePastEnd {
 		o.class("browse-past-end")
+	}
+	if f.sharedStore {
+		o.class("one-store-for-application-and-sessions")
 	}
 	if f.refused {
 		o.class("has-refused")
